@@ -756,7 +756,7 @@ class E3Session(SessionBase):
         except Exception as e:      # noqa
             raise Violation('C19', 'csv-export-fails', repr(e))
         # the response that was exported still states the same, and exporting it again states the same rows
-        if doc != before:
+        if not _same_doc(doc, before):
             raise Violation('C19', 'response-changed-by-its-csv-export', _first_diff(before, doc))
         again = io.StringIO()
         try:
@@ -1058,6 +1058,17 @@ def _same_value(a, b):
     if isinstance(a, float) and isinstance(b, float) and math.isnan(a) and math.isnan(b):
         return True
     return a == b
+
+
+def _same_doc(a, b):
+    """equality of two JSON-like documents in which NaN equals NaN"""
+    if isinstance(a, dict) and isinstance(b, dict):
+        return a.keys() == b.keys() and all(_same_doc(a[k], b[k]) for k in a)
+    if isinstance(a, (list, tuple)) and isinstance(b, (list, tuple)):
+        return len(a) == len(b) and all(_same_doc(x, y) for x, y in zip(a, b))
+    if isinstance(a, float) and isinstance(b, float) and math.isnan(a) and math.isnan(b):
+        return True
+    return type(a) == type(b) and a == b
 
 
 def _channel_frequencies(rq, eq, path):
